@@ -90,6 +90,14 @@ typedef struct cs_scenario {
     cs_c ab_scale;		/* common factor on a and b (0 = none) */
     double noise;		/* deterministic pseudo-noise amplitude on the
 				   measurements of standards (0 = exact) */
+    /* Gaussian measurement noise: realisation index (0 = none), noise
+       floor and signal-proportional part, total complex variance sigma^2 */
+    int gauss_real;
+    double sigma_nf, sigma_tr;
+    /* displace every measured cell of the standard with this id (0 = none)
+       by displace_sigmas standard deviations of the declared noise */
+    int displace_id;
+    double displace_sigmas;
 } cs_scenario;
 
 /* ---- physical model ------------------------------------------------ */
